@@ -39,7 +39,7 @@ INV = ('probability', 'relative_lift', 'relative_lift_lower',
 
 def _tasks(tier, seed):
   rng = np.random.default_rng(seed)
-  n_seeds = 1 if tier == 'quick' else 5
+  n_seeds = 1 if tier == 'quick' else 3
   seeds = [int(s) for s in rng.integers(0, 2 ** 31 - 1, n_seeds)]
   pres = L.presentations(tier)
   tasks = []
@@ -115,6 +115,8 @@ def _work(task):
     for level in LEVELS:
       for tails in TAILS:
         rep0 = None
+        well_conditioned = True
+        in_domain = True
         for thr in (0.0, 0.5):
           if quick and thr != 0.0 and tails == 1:
             continue
@@ -154,6 +156,7 @@ def _work(task):
             col.case(key, nontrivial=nondegenerate and not inf_est,
                      sample=dict(inp, scenario=scen))
             if not nondegenerate:
+              in_domain = False
               continue
             ereg = REGION_NPRE3 if inf_est else None
             r1 = resp.summary(level=level, threshold=thr * cost, tails=tails,
@@ -193,6 +196,7 @@ def _work(task):
             col.case(key, nontrivial=nondegenerate and not heavy and
                      not median, sample=dict(inp, scenario=scen))
             if not nondegenerate:
+              in_domain = False
               continue
             oreg = (REGION_HEAVY if heavy else
                     REGION_MEDIAN if median else None)
@@ -230,13 +234,21 @@ def _work(task):
               col.violation('C07/variable/incremental_response_upper', inp)
             # independent replay of the paired simulation
             z = stats.t(dof).rvs(NSIMS, random_state=rs)
-            sims = (r_loc + r_scale * z) / (c_loc + c_scale * z)
+            den = c_loc + c_scale * z
+            sims = (r_loc + r_scale * z) / den
+            # a simulated cost within 1e-3 |loc| of zero makes the MEAN of the
+            # ratios ill-conditioned (rounding of loc/scale is amplified by
+            # |loc|/|den|): outside the non-degenerate-cost domain for the
+            # float comparisons of the mean
+            well_conditioned = bool(np.min(np.abs(den)) > 1e-3 * abs(c_loc))
             exp = dict(estimate=float(np.mean(sims)),
                        lower=float(np.percentile(sims, 100 * tail_p)),
                        upper=(np.inf if tails == 1 else float(
                            np.percentile(sims, 100 * (1 - tail_p)))),
                        probability=float(np.mean(sims > thr)))
             for name, val in exp.items():
+              if name == 'estimate' and not well_conditioned:
+                continue
               if not L.close(_row(rep, name), val, rtol=1e-7,
                              atol=1e-12 if name == 'probability' else 0.0):
                 col.violation('C07/variable/%s=function-of-data-and-'
@@ -244,19 +256,22 @@ def _work(task):
         # ---- equivariance (threshold 0), once per (level, tails)
         rs = 1 + int(level * 10) + tails
         scen0 = rep0['scenario'].iloc[0]
-        for a, b, m2 in rescaled:
+        for a, b, m2 in rescaled if in_domain else ():
           inp = dict(spec=sj, use_cooldown=uc, level=level, tails=tails,
                      cost_mult=a, resp_mult=b, nsims=NSIMS, random_state=rs)
           rep2 = m2.summary(level=level, posterior_threshold=0.0, tails=tails,
                             nsims=NSIMS, random_state=rs)
           flips = ((abs(s_non_incr) < 1e-10) != (abs(a * s_non_incr) < 1e-10))
           key = L.short_key('equiv', L.spec_key(spec), uc, level, tails, a, b)
-          col.case(key, nontrivial=not flips, sample=None)
+          col.case(key, nontrivial=not flips and well_conditioned,
+                   sample=None)
           reg = REGION_FLIP if flips else None
+          figs = FIG if well_conditioned else ('lower', 'upper')
           if rep2['scenario'].iloc[0] != scen0:
             col.violation('C07/equivariance/scenario-unchanged', dict(
                 inp, non_incremental_cost=s_non_incr), reg)
-          ok = all(L.close(_row(rep2, c), _row(rep0, c) * b / a) for c in FIG)
+          ok = all(L.close(_row(rep2, c), _row(rep0, c) * b / a)
+                   for c in figs)
           ok = ok and all(L.close(_row(rep2, c), _row(rep0, c), atol=1e-12)
                           for c in INV)
           if not ok:
@@ -288,6 +303,17 @@ def run(tier, seed):
   res.bound = ('n_pre <= 40, n_test <= 9, cooldown <= 3, nsims = 2000, %d '
                'frames' % len(tasks))
   L.absorb(res, L.pool_map(_work, tasks))
+  res.notes.append(
+      'the non-incremental cost total that decides the scenario label sums '
+      'the pre-period costs of EVERY labelled group, unassigned geos '
+      'included (NaN-labelled rows are dropped): an unassigned geo with '
+      'pre-period spend turns a fixed-cost experiment into the variable-cost '
+      'scenario; the generated frames give unassigned geos zero cost in the '
+      'zero/tiny scenarios')
+  res.notes.append(
+      'variable-cost scenario: comparisons of the simulated MEAN (estimate, '
+      'precision) to 1e-8 are made only when no simulated cost lies within '
+      '1e-3 |loc| of zero (conditioning of the mean of ratios)')
   return res
 
 
